@@ -56,6 +56,7 @@
 #include "iora/core/errno_utils.hpp"
 #include "iora/core/logger.hpp"
 #include "iora/core/timer.hpp"
+#include "iora/core/verif_hooks.hpp"
 #include "iora/network/detail/engine_base.hpp"
 #include "iora/network/event_batch_processor.hpp"
 #include "iora/network/transport_types.hpp"
@@ -1106,6 +1107,7 @@ private:
     // synchronous addListener caller's fut.get() returns instead of blocking
     // forever (DD-5/DD-13). _cmdMutex stays a leaf: we swap under the lock and
     // fulfill promises after releasing (set_value runs no user code).
+    IORA_VERIF_YIELD("tcp.shutdown.before_queue_close"); // sessions are closed, the queue still accepts
     std::deque<Command> residual;
     {
       std::lock_guard<std::mutex> g(_cmdMutex);
